@@ -148,12 +148,159 @@ let show_diff impl_s model =
   let from s = let st = max 0 (!k - 40) in cut (String.sub s st (String.length s - st)) in
   "diff at=" ^ string_of_int !k ^ " impl=.." ^ from impl_s ^ " model=.." ^ from model
 
+(* the model's answer on a single frame: canonical content (or error class), cost, "unmodelled" *)
+let model_single decompress ft v2 compression stream =
+           let (o, c) = decode decompress ft v2 compression stream in
+           match o with
+           | OErr (st, e) -> ("err " ^ stage_name st ^ " " ^ err_name e, c, e = EUnmodelled)
+           | ODone f ->
+             (* typed rows (rows_iter::<Row>() until the first error) and the tablet payload *)
+             let tv = (match f.d_resp with
+                 | RResult (ResRows r) when r.rr_cols <> [] ->
+                   (match typed_rows_first_error r.rr_cols r.rr_rows N0 with
+                    | None -> "ok" | Some i -> "err@" ^ dec_of_n i)
+                   ^ (* a typed tuple target, when one type-checks *)
+                   (let k = tuple_target r.rr_cols in
+                    if k = N0 then "" else
+                      ",t" ^ dec_of_n k ^ ":" ^ (match tuple_rows_first_error k r.rr_cols r.rr_rows N0 with
+                          | None -> "ok" | Some i -> "err@" ^ dec_of_n i))
+                 | RResult (ResRows r) ->
+                   "z" ^ dec_of_n (if int_of_n r.rr_rows_count > 1000000 then n_of_i 1000000 else r.rr_rows_count)
+                 | _ -> "-") in
+             let tb = (match f.d_ext.x_payload with
+                 | None -> "-"
+                 | Some p ->
+                   (match payload_lookup tablets_key p with
+                    | None -> "none"
+                    | Some v ->
+                      (match tablet_payload v with
+                       | Ok ((first, last), reps) ->
+                         "ok:" ^ hex_of_z first ^ "," ^ hex_of_z last ^ ","
+                         ^ lst (fun (u, sh) -> "(" ^ hexs u ^ "," ^ dec_of_n sh ^ ")") reps
+                       | Err TbDeserialization -> "err:Deserialization"
+                       | Err TbShardNum -> "err:ShardNum"
+                       | Err TbWrongTokenRange -> "err:WrongTokenRange"))) in
+             ("ok " ^ r_frame f ^ " tv=" ^ tv ^ " tb=" ^ tb, c, false)
+
+(* ---------- kind Z (wave-4 follow-up): well-formed frames with large, highly compressible bodies ---------- *)
+let zhash_str (s : string) : int =
+  let h = ref 7 in
+  String.iter (fun ch -> h := (!h * 1000003 + Char.code ch) land ((1 lsl 62) - 1)) s; !h
+let zhash_bytes (b : n list) : int =
+  List.fold_left (fun h x -> (h * 1000003 + int_of_n x) land ((1 lsl 62) - 1)) 7 b
+let zshort (s : string) : string =
+  if String.length s <= 4096 then s else Printf.sprintf "%s#%x:%d" (String.sub s 0 1500) (zhash_str s) (String.length s)
+let z_model_max = 140_000
+(* the AST of a Z case, `<fill>.<period>.<len>.<shape>`; the runner's z_frame builds the same bytes by hand *)
+let z_ast (spec : string) : dframe option =
+  match String.split_on_char '.' spec with
+  | [fh; ps; ls; shape] ->
+    let fill = int_of_string ("0x" ^ fh) and period = int_of_string ps and len = int_of_string ls in
+    let pat k mask = List.init k (fun i -> n_of_i (((fill + i mod period) land 255) land mask)) in
+    let bs s = List.init (String.length s) (fun i -> n_of_i (Char.code s.[i])) in
+    let rows ty cells =
+      RResult (ResRows {
+          rr_hdr = { rh_col_count = n_of_i 1; rh_global = false; rh_no_metadata = false; rh_metadata_changed = false; rh_paging = None };
+          rr_meta_id = None;
+          rr_cols = [{ cs_table = (bs "ks", bs "t"); cs_name = bs "c"; cs_type = TNative ty }];
+          rr_rows_count = n_of_i (List.length cells); rr_rows = List.map (fun c -> [Some c]) cells }) in
+    let resp = (match shape with
+        | "blob" -> Some (rows Blob [pat len 255], 8)
+        | "text" -> Some (rows Text [pat len 127], 8)
+        | "rows" -> let k = max 1 (len / 8) in
+          let cell = List.init 4 (fun _ -> n_of_i fill) in Some (rows Int (List.init k (fun _ -> cell)), 8)
+        | "error" -> Some (RError (DbServerError, pat (min len 65535) 127), 0)
+        | "supported" ->
+          let sl = min len 1024 and count = max 1 (min 65535 (len / 1024)) in
+          let st = pat sl 127 in Some (RSupported [(bs "K", List.init count (fun _ -> st))], 6)
+        | _ -> None) in
+    (match resp with
+     | None -> None
+     | Some (r, opcode) ->
+       let h0 = { h_version = n_of_i 132; h_flags = N0; h_stream = z_of_i 1; h_opcode = n_of_i opcode; h_length = N0 } in
+       let f0 = { d_header = h0; d_ext = { x_trace = None; x_warnings = []; x_payload = None }; d_resp = r } in
+       Some f0)
+  | _ -> None
+
+let rec drop k l = if k <= 0 then l else match l with [] -> [] | _ :: t -> drop (k - 1) t
+let rec take_ k l = if k <= 0 then [] else match l with [] -> [] | x :: t -> x :: take_ (k - 1) t
+(* the compressed body of the first frame: the h_length bytes behind the 9-byte header *)
+let comp_body (stream : n list) : n list =
+  match stream with
+  | _ :: _ :: _ :: _ :: _ :: a :: b :: c :: d :: rest ->
+    take_ ((((int_of_n a * 256 + int_of_n b) * 256 + int_of_n c) * 256) + int_of_n d) rest
+  | _ -> []
+
+let verdict_z ftS mode spec impl =
+  let ft = parse_features ftS in
+  let v2 = mode.[0] = '2' in
+  let fld p = find_field p impl in
+  let num p = match fld p with Some v -> int_of_string_opt v | None -> None in
+  let status = List.filter (fun f -> not (List.exists (fun p -> starts p f)
+      ["m="; "t="; "s="; "h="; "g="; "zeq="; "bh="; "bl="; "cl="; "r="; "cf="])) impl in
+  match status with
+  | "notrun" :: r -> "ok notrun " ^ String.concat "_" r
+  | ("abort" | "panic") :: _ -> "viol crash=" ^ cut (String.concat "_" status)
+  | "timeout" :: _ -> "viol hang well-formed-compressible-frame"
+  | _ ->
+    (match num "m=", num "t=", num "bl=", num "cl=", num "g=", num "zeq=", fld "bh=", fld "cf=", fld "s=" with
+     | Some maxreq, Some total, Some bl, Some cl, Some g, Some zeq, Some bh, Some cf, Some _ ->
+       let codec = if mode.[1] = 'l' then CLz4 else CSnappy in
+       let plain = bl - 9 and comp = cl - 9 in
+       let avail = if codec = CLz4 then comp - 4 else comp in
+       let ratio = Printf.sprintf "ratio=%d.%02d" (plain / max 1 comp) ((plain * 100 / max 1 comp) mod 100) in
+       let impl_s = String.concat " " status in
+       (* the NAMED hypothesis of C08_guard_passes_* evaluated on the real encoder's output *)
+       if not (within_expansion codec (n_of_i plain) (n_of_i avail)) then
+         "diff codec-expansion-hypothesis-false-of-the-real-encoder " ^ ratio
+       else if g <> 0 then
+         (* by C08_guard_passes_* the guard of the model lets this body through *)
+         "viol well-formed-frame-refused-by-claimed-size-guard " ^ ratio ^ " impl=" ^ cut impl_s
+       else if zeq <> 1 then "viol well-formed-frame-decompressed-to-different-content " ^ ratio ^ " impl=" ^ cut impl_s
+       else if not (starts "ok " impl_s) then "viol well-formed-frame-refused " ^ ratio ^ " impl=" ^ cut impl_s
+       else if bl > z_model_max then
+         (if cf <> "-" then "error large Z case with cf=" else
+          (* above the size the extracted model is run on: accepted, and the real decoder returned the encoded body *)
+          let elen = n_of_i ((if codec = CLz4 then 255 else 32) * cl) in
+          if not (largest_in_proportion elen (n_of_i maxreq) && total_in_proportion elen (n_of_i total)) then
+            Printf.sprintf "viol alloc largest=%d total=%d len=%d" maxreq total cl
+          else "ok")
+       else
+         (match z_ast spec with
+          | None -> "error bad Z spec"
+          | Some f0 ->
+            let body = enc_body ft f0 in
+            let f = { f0 with d_header = { f0.d_header with h_length = n_of_i (List.length body) } } in
+            let wire = encode_frame (fun b -> b) ft f in
+            if List.length wire <> bl || Printf.sprintf "%x" (zhash_bytes wire) <> bh then
+              Printf.sprintf "diff z-builder: the runner's frame is not the extracted encoder's (len %d vs %d)" bl (List.length wire)
+            else begin
+              let stream = bytes_of_hexstr cf in
+              let cbody = comp_body stream in
+              if guard codec cbody <> GPass then "diff guard-model refuses the real encoder's output " ^ ratio else
+              (* the model decoder behind a codec that returns what was encoded (C08_roundtrip's premise) *)
+              let (model, c, _) = model_single (fun _ -> Some body) ft v2 true stream in
+              let expect = { f with d_header = { f.d_header with h_flags = n_of_i 1; h_length = n_of_i comp } } in
+              let want = "ok " ^ r_frame expect in
+              if not (starts want model) then "diff z-model-roundtrip model=" ^ cut model
+              else if impl_s <> zshort model then
+                "viol well-formed-frame-decoded-to-different-content " ^ ratio ^ " " ^ show_diff impl_s (zshort model)
+              else begin
+                let elen = n_of_i ((if codec = CLz4 then 255 else 32) * cl) in
+                if not (largest_in_proportion elen (n_of_i maxreq) && total_in_proportion elen (n_of_i total)) then
+                  Printf.sprintf "viol alloc largest=%d total=%d len=%d model_alloc=%d" maxreq total cl (int_of_n c.c_alloc)
+                else "ok"
+              end
+            end)
+     | _ -> "error Z result line without m= / t= / s= / bl= / cl= / g= / zeq= / bh= / cf=")
+
 (* Verdict.  Order: (1) the property predicate on the implementation's own output - it terminated
    normally and what it allocated (largest single request AND total, measured) is in proportion to
    the input; only this gives `viol` (no class tags: no finding is open); (2) correspondence with the model: anything else is `diff`;
    environment trouble is `ok notrun` (counted and capped by checks/c08.py). *)
 let verdict case impl =
   match case with
+  | ["Z"; ft; mode; spec] -> verdict_z ft mode spec impl
   | [kind; ft; mode; hex] ->
     let ft = parse_features ft in
     let v2 = mode.[0] = '2' and compression = mode.[1] <> 'n' in
@@ -167,7 +314,7 @@ let verdict case impl =
     let small = match find_field "s=" impl with Some v -> v | None -> "-" in
     let sch = match find_field "sch=" impl with
       | Some v -> List.filter_map int_of_string_opt (String.split_on_char '.' v) | None -> [] in
-    let status = List.filter (fun f -> not (starts "m=" f || starts "t=" f || starts "s=" f || starts "dc=" f || starts "sch=" f || starts "h=" f)) impl in
+    let status = List.filter (fun f -> not (starts "m=" f || starts "t=" f || starts "s=" f || starts "dc=" f || starts "sch=" f || starts "h=" f || starts "g=" f)) impl in
     (match num "m=", num "t=" with
      | None, _ | _, None -> "error result line without m= / t= (the measurements the property is judged on)"
      | Some maxreq, Some total ->
@@ -207,37 +354,7 @@ let verdict case impl =
                            | None -> "ok" | Some i -> "err@" ^ dec_of_n i)) in
               ("ok " ^ r_rows r cc ^ " tv=" ^ tv, c, false))
          else begin
-           let (o, c) = decode decompress ft v2 compression stream in
-           match o with
-           | OErr (st, e) -> ("err " ^ stage_name st ^ " " ^ err_name e, c, e = EUnmodelled)
-           | ODone f ->
-             (* typed rows (rows_iter::<Row>() until the first error) and the tablet payload *)
-             let tv = (match f.d_resp with
-                 | RResult (ResRows r) when r.rr_cols <> [] ->
-                   (match typed_rows_first_error r.rr_cols r.rr_rows N0 with
-                    | None -> "ok" | Some i -> "err@" ^ dec_of_n i)
-                   ^ (* a typed tuple target, when one type-checks *)
-                   (let k = tuple_target r.rr_cols in
-                    if k = N0 then "" else
-                      ",t" ^ dec_of_n k ^ ":" ^ (match tuple_rows_first_error k r.rr_cols r.rr_rows N0 with
-                          | None -> "ok" | Some i -> "err@" ^ dec_of_n i))
-                 | RResult (ResRows r) ->
-                   "z" ^ dec_of_n (if int_of_n r.rr_rows_count > 1000000 then n_of_i 1000000 else r.rr_rows_count)
-                 | _ -> "-") in
-             let tb = (match f.d_ext.x_payload with
-                 | None -> "-"
-                 | Some p ->
-                   (match payload_lookup tablets_key p with
-                    | None -> "none"
-                    | Some v ->
-                      (match tablet_payload v with
-                       | Ok ((first, last), reps) ->
-                         "ok:" ^ hex_of_z first ^ "," ^ hex_of_z last ^ ","
-                         ^ lst (fun (u, sh) -> "(" ^ hexs u ^ "," ^ dec_of_n sh ^ ")") reps
-                       | Err TbDeserialization -> "err:Deserialization"
-                       | Err TbShardNum -> "err:ShardNum"
-                       | Err TbWrongTokenRange -> "err:WrongTokenRange"))) in
-             ("ok " ^ r_frame f ^ " tv=" ^ tv ^ " tb=" ^ tb, c, false)
+           model_single decompress ft v2 compression stream
          end in
        (* kind Q: the reader delivered the stream in chunks (C08_chunking: same answer as all at once);
           then what the next read_response_frame on the same reader returns *)
@@ -273,6 +390,15 @@ let verdict case impl =
             largest request, twice that for the total of all requests) *)
          Printf.sprintf "viol alloc largest=%d total=%d bound=%d len=%d model_alloc=%d" maxreq total
            (int_of_n (alloc_bound elen)) len malloc
+       else if (match find_field "g=" impl with
+           | Some gs when compressed && len >= 9 ->
+             (* the claimed-size guard of frame::decompress against Model/FrameGuard.v, on every compressed case *)
+             let want = (match guard (if snappy then CSnappy else CLz4) (comp_body stream) with
+                 | GPass -> "0" | GRefused -> "1" | GShort -> "2") in
+             gs <> want
+           | _ -> false) then
+         "diff guard impl=" ^ (match find_field "g=" impl with Some g -> g | None -> "-") ^ " model=" ^
+         (match guard (if snappy then CSnappy else CLz4) (comp_body stream) with GPass -> "0" | GRefused -> "1" | GShort -> "2")
        else if unmodelled then "ok unmodelled"
        else if impl_s <> model then show_diff impl_s model
        else begin
